@@ -101,7 +101,7 @@ var concWriteSizes = []int{1, 50, 100, 200, 700, 1023, 1024, 1025, 2500, 4000}
 func TestConcurrentReaders(t *testing.T) {
 	rapid.Check(t, func(t *rapid.T) {
 		ia := rapid.IntRange(0, 5).Draw(t, "idA")
-		ib := rapid.IntRange(0, 5).Draw(t, "idB")
+		ib := (ia + 1 + rapid.IntRange(0, 4).Draw(t, "idB")) % 6 // a different identity
 		eph := drawEphDistinct(t, 2, "eph")
 		dir := rapid.IntRange(0, 1).Draw(t, "dir")
 		nWriters := rapid.SampledFrom([]int{1, 1, 2, 3}).Draw(t, "writers")
